@@ -13,13 +13,6 @@ From Carquet Require Import Base.Res Gen.Enums_gen Enc.DeltaBits
 Import ListNotations.
 Local Open Scope N_scope.
 
-(** decompress_page(codec, src, capacity) for the codecs modelled *)
-Definition codec_decompress (codec : Z) (s : list N) (cap : N) : res (list N) :=
-  if Z.eqb codec E_CARQUET_COMPRESSION_SNAPPY then SnappyModel.decompress s cap
-  else if Z.eqb codec E_CARQUET_COMPRESSION_LZ4 || Z.eqb codec E_CARQUET_COMPRESSION_LZ4_RAW
-       then Lz4Model.decompress s cap
-       else Ok s.
-
 Definition own_codec (codec : Z) : Prop :=
   codec = E_CARQUET_COMPRESSION_UNCOMPRESSED \/ codec = E_CARQUET_COMPRESSION_SNAPPY \/
   codec = E_CARQUET_COMPRESSION_LZ4 \/ codec = E_CARQUET_COMPRESSION_LZ4_RAW.
